@@ -57,13 +57,8 @@ def const_index_ok(site, b, limit=8):
     base = strip_identity(o.of_operand(c.args[0]))
     if base[0] != "repeat" or not base[2].startswith(str(limit)):
         return False
-    if r[0] == "call" and name_matches(r[1], "RangeInclusive::new"):
-        a, e = int_of(r[2][0]), int_of(r[2][1])
-        return a is not None and e is not None and 0 <= a <= e < limit
-    if r[0] == "agg" and r[2].endswith("range::Range::Range"):
-        a, e = int_of(r[3][0]), int_of(r[3][1])
-        return a is not None and e is not None and 0 <= a <= e <= limit
-    return False
+    rb = range_bounds(r, limit)
+    return rb is not None and 0 <= rb[0] <= rb[1] <= limit
 
 
 def bounds_assert_ok(site, b):
@@ -83,10 +78,10 @@ def copy_len_ok(site, b):
     src = strip_identity(o.of_operand(c.args[1]))
     if not (dst[0] == "call" and name_matches(dst[1], "IndexMut::index_mut")):
         return False
-    r = strip_identity(dst[2][1])
-    if not (r[0] == "call" and name_matches(r[1], "RangeInclusive::new")):
+    rb = range_bounds(dst[2][1], 8)
+    if rb is None:
         return False
-    n = int_of(r[2][1]) - int_of(r[2][0]) + 1
+    n = rb[1] - rb[0]
     cv = const_of(src)
     if cv is not None and cv.startswith('b"'):
         lit = parse_bytes_literal(cv)
